@@ -58,6 +58,15 @@ def make_data(lay) -> np.ndarray:
     nbits = lay["nbits"]
     rng = np.random.default_rng(lay["data_seed"])
     kind = lay.get("data_kind", "full")
+    if kind == "mid":
+        # middle half of the representable range (used by zero-DM removal so results stay in range)
+        if nbits == 32:
+            return rng.integers(50, 151, size=(n, nchans)).astype(np.float32)
+        if nbits == 16:
+            return rng.integers(20000, 40000, size=(n, nchans)).astype(np.uint16)
+        lo = {1: 0, 2: 1, 4: 5, 8: 64}[nbits]
+        hi = {1: 1, 2: 2, 4: 10, 8: 191}[nbits]
+        return rng.integers(lo, hi + 1, size=(n, nchans)).astype(np.uint8)
     if nbits == 32:
         if kind == "f32any":
             # arbitrary finite float32 bit patterns (incl. subnormals, +-0, huge)
